@@ -40,8 +40,12 @@ UNPROTECTED_ONLY = ("b64-unprotected", "unprotected-shadow", "recast-flattened",
 
 def as_given(token):
     """compact tokens are accepted as str and as bytes: a third of them (chosen by content, so that a replay takes the same form) go in as bytes"""
-    if isinstance(token, str) and zlib.crc32(token.encode("utf-8", "surrogatepass")) % 3 == 0:
-        return token.encode("utf-8", "surrogatepass")
+    if isinstance(token, str):
+        c = zlib.crc32(token.encode("utf-8", "surrogatepass")) % 9
+        if c in (0, 3, 6):
+            return token.encode("utf-8", "surrogatepass")
+        if c == 1:
+            return bytearray(token.encode("utf-8", "surrogatepass"))   # tolerated through bytes(x)
     return token
 
 
@@ -671,6 +675,42 @@ def confusion_cases(mon: Monitor, ctx):
                 mon.judge(base, "alg-not-allowed", f"{alg}->{alt}", t, jkey, resolver, [alg_name(alg)], ep_name, ep)
 
 
+def many_signatures_cases(mon: Monitor, ctx):
+    """general JSON with well over a hundred signatures: a fault in any of them - also far down the list - must be found"""
+    j = J.load()
+    rng = ctx.rng
+    n = 150
+    payload = b'{"iss":"many signers"}'
+    for alg in ("HS256", "ES256"):
+        key = key_for(alg)
+        rk = RefKey.from_jwk(key)
+        ents = [rjws.json_signature({"alg": alg_name(alg)}, {"kid": f"s{i}"}, payload, rk) for i in range(n)]
+        tok = rjws.general(payload, ents)
+        base = Base("general", tok, [key], payload, [{"alg": alg, "protected_octets": b"", "header": None, "kid": None}])
+        pubs = base.pub_jwks()
+        jkey, resolver = joserfc_key(pubs), ref_resolver(pubs)
+        ep_name, ep = "jws.deserialize_json", (lambda t, k, a: j.jws.deserialize_json(copy.deepcopy(t), k, algorithms=a))
+        allow = [alg_name(alg)]
+        o = mon.judge(base, "valid", f"{n}-signatures", tok, jkey, resolver, allow, ep_name, ep, expect_reject=False)
+        if not o.ok:
+            ctx.note(f"the valid {n}-signature token was rejected: {o!r}")
+            continue
+        other = RefKey.from_jwk(key_for(alg, avoid=key))
+        for idx in (0, 1, 63, 64, 127, 128, 129, n - 2, n - 1):
+            sig = b64u_dec(ents[idx]["signature"])
+            flipped = bytes([sig[0] ^ 1]) + sig[1:]
+            for name, repl in (("bitflip-signature", {**ents[idx], "signature": b64u_enc(flipped)}), ("sig-empty", {**ents[idx], "signature": ""}),
+                               ("foreign-key-entry", rjws.json_signature({"alg": alg_name(alg)}, {"kid": f"s{idx}"}, payload, other)),
+                               ("other-payload-entry", rjws.json_signature({"alg": alg_name(alg)}, {"kid": f"s{idx}"}, b'{"iss":"somebody else"}', rk))):
+                t = copy.deepcopy(tok)
+                t["signatures"][idx] = repl
+                mon.judge(base, "many-signatures:" + name, f"entry {idx} of {n}", t, jkey, resolver, allow, ep_name, ep)
+        t = copy.deepcopy(tok)
+        t["signatures"].append(rjws.json_signature({"alg": alg_name(alg)}, {"kid": f"s{n}"}, payload, other))
+        mon.judge(base, "many-signatures:foreign-key-entry", f"appended as entry {n}", t, jkey, resolver, allow, ep_name, ep)
+        ctx.count("many_signature_bases")
+
+
 def crit_nonstrict_cases(mon: Monitor, ctx):
     """RFC 7797 token (b64:false, crit) whose payload text is itself base64url, offered to the plain RFC 7515 entry points
     configured with strict_check_header=False: the signed payload is the text, so returning the decoded octets would be wrong."""
@@ -714,6 +754,7 @@ def plan(tier):
     items.append(("mixed", "general3", 1))
     items.append(("confusion", "", 0))
     items.append(("crit-nonstrict", "", 0))
+    items.append(("many-signatures", "", 0))
     return items
 
 
@@ -771,6 +812,9 @@ def run_shard(ctx):
         if alg == "crit-nonstrict":
             crit_nonstrict_cases(mon, ctx)
             continue
+        if alg == "many-signatures":
+            many_signatures_cases(mon, ctx)
+            continue
         base, other = build(alg, form, variant, ctx.rng)
         ctx.count("base_tokens")
         if len(ctx.samples) < 2:
@@ -820,7 +864,7 @@ def raise_inconclusive(msg):
     raise Inconclusive(msg)
 
 
-REQUIRE = [("base_tokens", 20, "base tokens"), ("reached_verify_primitive", 2000, "faults that reached a signature primitive"),
+REQUIRE = [("many_signature_bases", 1, "general JSON with 150 signatures"), ("base_tokens", 20, "base tokens"), ("reached_verify_primitive", 2000, "faults that reached a signature primitive"),
            ("trace_checked_accepts", 20, "trace specification evaluated on accepts"), ("verify_events", 20, "verify events observed")]
 
 
